@@ -459,7 +459,7 @@ def make_program(geo: Dict[str, Any], cfg_seed: int, identity: bool = False) -> 
     ops.append({"op": "assemble"})
     ops.append({"op": "write", "path": DICT_PATH, "debug": VTK_PATH})
     rewrite = geo.get("rewrite")
-    if rewrite:
+    if rewrite is not None:
         # the same assembled mesh is written again after some vertices were moved
         for mv in rewrite:
             ops.append({"op": "move_vertex", "index": mv["index"], "d": mv["d"]})
@@ -815,6 +815,10 @@ def oracle_outcome(program, verdict: models.FamilyVerdict, res: RunResult, pre_f
     if res.outcome == "livelock":
         out.append(Violation("C02", "livelock", res.exc_msg, key="livelock"))
         return out
+    if res.writes and res.outcome != "ok":
+        # the first write succeeded; a failing second write is judged by the second-write oracles
+        return out if not [op for op in res.fs_ops if len(op) > 1 and op[1] == DICT_PATH + ".second"] else out + [
+            Violation("C02", "partial-dictionary", f"second write ended {res.outcome} but its path saw file operations")]
     if meta.get("infeasible"):
         if not res.outcome.startswith("exc:"):
             out.append(Violation("C02", "unrealisable-chop-accepted", f"a first cell longer than its edge was asked for, outcome is {res.outcome}"))
@@ -833,10 +837,12 @@ def oracle_outcome(program, verdict: models.FamilyVerdict, res: RunResult, pre_f
         if res.outcome != "exc:UndefinedGradingsError" and not (res.outcome == "exc:ValueError" and _may_be_unrealisable(program)):
             out.append(Violation("C02", "undefined-not-rejected", f"a family has no chop but outcome is {res.outcome} {res.exc_msg}"))
     if res.outcome != "ok":
-        ops = [op for op in res.fs_ops if len(op) > 1 and op[1] == DICT_PATH]
+        # the write that failed: the first one, or the second one (which goes to its own path)
+        failed_path = DICT_PATH if not res.writes else DICT_PATH + ".second"
+        ops = [op for op in res.fs_ops if len(op) > 1 and op[1] == failed_path]
         if ops:
             out.append(Violation("C02", "partial-dictionary", f"outcome {res.outcome} but the dictionary path saw {ops[:3]}"))
-        if pre_files and res.files.get(DICT_PATH) != pre_files.get(DICT_PATH):
+        if pre_files and not res.writes and res.files.get(DICT_PATH) != pre_files.get(DICT_PATH):
             out.append(Violation("C02", "partial-dictionary", "pre-existing dictionary changed by a failed write"))
     return out
 
